@@ -110,6 +110,13 @@ func c17Pinned(name string) c17Case {
 		g := vFile{Language: "go", Package: "p", Options: []map[string]any{{"rename_arguments": map[string]any{"by_name": "S.a", "as": []string{"x"}}}}}
 		cs.files = []vFile{f, g}
 		return cs
+	case "map-index-sf-opts":
+		s.AddObject(ast.NewObject("p", "K", ast.NewStruct(ast.NewStructField("h", ast.Bool()))))
+		s.AddObject(ast.NewObject("p", "MK", ast.NewStruct(ast.NewStructField("items", ast.NewMap(ast.NewRef("p", "K"), ast.String())))))
+		f.Options = []map[string]any{
+			{"map_to_index": map[string]any{"by_name": "MK.items"}},
+			{"struct_fields_as_options": map[string]any{"by_name": "MK.items"}},
+		}
 	case "compose-then-initialize":
 		// the composed builder starts from a by-value copy of the source builder's Constructor: both
 		// slices share one backing array with spare capacity (3 constants appended one by one: cap 4)
@@ -134,4 +141,4 @@ func c17Pinned(name string) c17Case {
 	return cs
 }
 
-var c17PinnedNames = []string{"dup-option-default", "dup-builder-default", "dismissed", "rename-args-constraint", "promote-array-to-append", "merge-rename-arguments", "map-index-unfold", "sf-opts-after-append", "add-assignment-array-to-append", "map-index-promote", "append-then-map-to-index", "sf-args-twice"}
+var c17PinnedNames = []string{"dup-option-default", "dup-builder-default", "dismissed", "rename-args-constraint", "promote-array-to-append", "merge-rename-arguments", "map-index-unfold", "sf-opts-after-append", "add-assignment-array-to-append", "map-index-promote", "append-then-map-to-index", "sf-args-twice", "map-index-sf-opts"}
